@@ -515,7 +515,7 @@ class LeaderFollowerComponent(IntersectorComponent):
                         self.name)
 
 
-class MergerComponent(Component):
+class MergerComponent(FunctionalComponent):
     """
     A Component for a merger
     """
